@@ -449,6 +449,7 @@ def run_world(ctx, w, hook, rng):
 def run_shard(ctx):
     space = packages.PackageSpace(os.path.join(ctx.tmp, "pkgs"),
                                   "c12s%d" % ctx.shard)
+    space.split_every = 5
     hook = Hook(ctx.res)
     hook.install()
     try:
